@@ -1185,7 +1185,9 @@ impl Walrus {
             let mut target = PersistTarget::None;
 
             let mut update_state = |info: &mut ColReaderInfo| {
-                if checkpoint {
+                // Offset-addressed (stateless) reads never move the shared cursor, whatever
+                // their `checkpoint` argument says.
+                if checkpoint && start_offset.is_none() {
                     let mut should_persist_disk = true;
 
                     if let ReadConsistency::AtLeastOnce { persist_every } = self.read_consistency {
